@@ -160,6 +160,21 @@ func runC03(r *vhlib.Run) {
 			c03Check(r, d[:k], "truncated", true)
 		}
 	}
+	// trees that are each under-subscribed while their Kraft sums add up to one
+	for k := 0; k < 3; k++ {
+		for _, t := range gen.BzKraftCombos(rng) {
+			c03Check(r, t.Data, t.Kind, true)
+		}
+	}
+	// the level byte of the header: every value around '1'..'9'
+	{
+		base := ref.BZCompress(bzPlain(rng, 300), 9)
+		for v := 0x2e; v <= 0x3d; v++ {
+			d := append([]byte{}, base...)
+			d[3] = byte(v)
+			c03Check(r, d, "header-level", true)
+		}
+	}
 	// targeted limit cases (100000-byte blocks): implementation + libbz2 always, model in thorough
 	for _, t := range gen.BzTargeted(rng) {
 		c03Check(r, t.Data, t.Kind, !r.Quick() || len(t.Data) < 2000)
